@@ -91,6 +91,10 @@ def run_world(scn, widx, verbose=False):
     e = w.get("env") or {}
     if e.get("LC_ALL"):
         env["LC_ALL"] = e["LC_ALL"]
+    for k, v in sorted((e.get("vars") or {}).items()):
+        if k in ("HOME", "TMPDIR") and v == "@scratch":
+            v = scratch
+        env[k] = v
     cmd = [PY]
     if e.get("opt"):
         cmd.append(e["opt"])
